@@ -110,6 +110,13 @@ def families(tier, seed):
         for st in (0, 1):
             out.append(dict(tag=f"eval-pair-{name}/s{st}", features=dict(path="eval", sequence=True), kind="expr_eval_seq",
                             items=[(t, pos, st) for t in trees]))
+    for tag, feats, model in gen.c05_structured():
+        for st in (0, 1):
+            out.append(dict(tag=f"{tag}/code/s{st}", features=dict(feats, path="code", style=st), kind="field", model=model, vec=False, seed=seed + 3,
+                            style=st, n_states=3, n_param_draws=1))
+        op = model["ops"]["eo"]
+        vals = {k: (v[1] if v[0] == "const" else 0.45) for k, v in op["vars"].items()}
+        out.append(dict(tag=f"{tag}/eval", features=dict(feats, path="eval"), kind="expr_eval", tree=op["eqs"][0][2], values=vals, style=0))
     for tag, feats, model in gen.c05_witnesses():
         out.append(dict(tag=tag, features=dict(feats, path="code"), kind="field", model=model, vec=False, seed=seed, style=0))
     # operator inputs rewritten textually (summed multi-source inputs), incl. as the last token of the equation
@@ -139,7 +146,8 @@ def main():
     _results = driver.run_family(
         chk, "expression-trees-both-paths", _cases, dispatch, site="C05/expressions",
         rule="seeded random expression trees (depth <= 4 quick / 6 thorough) over + - * / ** and ^, unary minus, nested calls of sin "
-             "cos tanh exp sigmoid absv arctan sinh cosh maxi mini, pi, literals, over identifier sets whose names are prefixes / "
+             "cos tanh exp sigmoid absv arctan sinh cosh maxi mini, pi, literals (plus a fixed list of shapes: sums of quotients whose terms "
+             "print to the same length, pairs of functions whose names are prefixes of one another in both orders), over identifier sets whose names are prefixes / "
              "suffixes of one another or look generated (r/rr, r_in/r_in0, x_v1, weight, m_in2, tau/taux); each tree rendered in "
              "styles {minimal parentheses, x' and ^, no spaces, fully parenthesised}; (1) as the one-equation operator x' = <expr> "
              "through get_run_func at 3 states x 2 parameter draws, (2) through ExpressionParser + eval_node, singly and as sequences of expressions "
